@@ -46,8 +46,8 @@ RULE = ("gen(seed) = base scenario (connect?/window/read_chunk_size knobs, inbou
         "arrival segments, 1-6 ops of write/read_bytes/read_into/read_until/read_until_regex/"
         "read_until_close/peer-consume/later-connect/owner-cancels-a-pending-future with pauses, recv_cap/send_cap/defer tapes); "
         "expand() = fault-free run + one scenario per close cause x close point (see module doc). "
-        "non-trivial = the stream was closed by the enumerated cause (not by the final cleanup "
-        "close) AND at least one read/write/connect future was pending at the instant the fd was "
+        "non-trivial = the stream was closed by the enumerated cause or by its own max_bytes "
+        "check (not by the final cleanup close) AND at least one read/write/connect future was pending at the instant the fd was "
         "closed; distinct = distinct scenario hash")
 COMPONENTS = {
     "real": ["tornado.iostream.IOStream/BaseIOStream (close, _signal_closed, _handle_events, "
@@ -66,7 +66,9 @@ ASSUMPTIONS = [
     "itself (or StreamClosedError carrying it) instead of returning a failed future",
     "reads issued on an already closed stream may fail in any way; if they succeed the data must "
     "be the next already-pulled bytes and satisfy the read's own contract",
-    "read_until/read_until_regex are used without max_bytes (that is C11's subject)",
+    "a stream that closes itself with no socket error, no EOF and no close() call by the driver "
+    "can only have done so for an exceeded max_bytes: the real error is then "
+    "UnsatisfiableReadError (whether max_bytes was judged correctly is C11's subject)",
     "reads are not issued while the connect future is pending (documented as non-portable)",
 ]
 
@@ -136,9 +138,13 @@ def gen(rng, tier, index):
         elif k < 0.68:
             ops.append({"op": "read", "kind": "until", "delim": "hex:" + rng.choice(DELIMS).hex(),
                         "pause": pause})
+            if rng.random() < 0.35:
+                ops[-1]["max"] = rng.choice([1, 2, 3, 5, 8, max(1, n)])
         elif k < 0.78:
             ops.append({"op": "read", "kind": "regex",
                         "re": rng.choice(REGEXES).decode("latin1"), "pause": pause})
+            if rng.random() < 0.4:
+                ops[-1]["max"] = rng.choice([1, 2, 3, 5, 8, max(1, n)])
         elif k < 0.88:
             ops.append({"op": "read", "kind": "close", "pause": pause})
         elif k < 0.95:
@@ -239,6 +245,10 @@ def validate(scn):
                     return False
                 if kind == "regex":
                     re.compile(op["re"].encode("latin1"))
+                if op.get("max") is not None and (kind not in ("until", "regex")
+                                                  or not isinstance(op["max"], int)
+                                                  or op["max"] < 1):
+                    return False
         if k.get("connect") and (not scn["ops"] or scn["ops"][0].get("op") != "connect"):
             return False
         c = scn["close"]
@@ -318,6 +328,13 @@ def run(scn, full_log=False):
             sock = st["sock"]
             st["pulled"] = sock.rx.read_total if sock.rx is not None else 0
             st["cancelled_at_close"] = list(st["cancelled"])
+            if st["sock_errors"]:
+                st["why"] = "error"
+            elif st.get("local_closing") or st.get("eof"):
+                st["why"] = "clean"
+            else:
+                st["why"] = "self"  # the stream decided to close: max_bytes exceeded
+                st["self_inline"] = any(r["in_call"] for r in recs)
             for r in recs:
                 if r["pac"] is None:
                     f = r["fut"]
@@ -337,10 +354,13 @@ def run(scn, full_log=False):
 
             def recv_into(buf, n=0):
                 try:
-                    return o_recv(buf, n)
+                    k = o_recv(buf, n)
                 except OSError as e:
                     note(e)
                     raise
+                if k == 0 and (n or len(buf)):
+                    st["eof"] = True
+                return k
 
             def send(d):
                 try:
@@ -395,6 +415,7 @@ def run(scn, full_log=False):
                     peer.close(gap=g)
 
         def safe_close(where):
+            st["local_closing"] = True
             try:
                 st["stream"].close()
             except BaseException as e:  # CancelledError is a BaseException
@@ -581,9 +602,10 @@ def run(scn, full_log=False):
                         r["buf"] = bytearray(max(0, int(op.get("n", 0))))
                         r["fut"] = stream.read_into(r["buf"], partial=bool(op.get("partial")))
                     elif rk == "until":
-                        r["fut"] = stream.read_until(_hex(op["delim"]))
+                        r["fut"] = stream.read_until(_hex(op["delim"]), max_bytes=op.get("max"))
                     elif rk == "regex":
-                        r["fut"] = stream.read_until_regex(op["re"].encode("latin1"))
+                        r["fut"] = stream.read_until_regex(op["re"].encode("latin1"),
+                                                           max_bytes=op.get("max"))
                     else:
                         r["fut"] = stream.read_until_close()
                 except BaseException as e:
@@ -631,7 +653,9 @@ def run(scn, full_log=False):
         elif status.startswith("error"):
             bad("harness.main_raised", f"{status}: {getattr(env, 'main_exception', None)!r}")
 
+        from tornado.iostream import UnsatisfiableReadError
         exp_errno = st["sock_errors"][0] if st["sock_errors"] else None
+        exp_unsat = st.get("why") == "self"
         sent = st["sent_data"]
         P = st["pulled"]
         stream = st["stream"]
@@ -660,7 +684,15 @@ def run(scn, full_log=False):
             if res[0] == "closed":
                 re_ = res[1]
                 got = getattr(re_, "errno", None) if re_ is not None else None
-                if exp_errno is None:
+                if exp_unsat:
+                    if not isinstance(re_, UnsatisfiableReadError):
+                        bad("close.real_error_mismatch",
+                            f"{r['kind']} (op {r['i']}) failed with real_error {re_!r}; the stream "
+                            f"closed itself because a read's max_bytes was exceeded",
+                            f"close.real_error_mismatch/{k0}/UnsatisfiableReadError")
+                    else:
+                        probe("real_error_UnsatisfiableReadError")
+                elif exp_errno is None:
                     if re_ is not None:
                         bad("close.real_error_mismatch",
                             f"{r['kind']} (op {r['i']}) failed with real_error {re_!r} after a clean "
@@ -753,6 +785,9 @@ def run(scn, full_log=False):
                     sat = m.end()
             else:
                 sat = len(B)
+            mx = op.get("max") if rk in ("until", "regex") else None
+            if mx is not None and sat is not None and sat > mx:
+                sat = None  # the delimiter lies beyond max_bytes: not satisfiable
             if res[0] == "ok":
                 val = res[1]
                 if rk == "into":
@@ -792,6 +827,8 @@ def run(scn, full_log=False):
                     okc = ln in _regex_ends(rx, sent[c:c + 64 + ln])
                 elif not later:
                     okc = st["fd_closed"] and got == sent[c:P]
+                if mx is not None and ln > mx:
+                    okc = False
                 if not okc:
                     bad("close.read_contract",
                         f"{kind} (op {r['i']}, {when}) returned {ln} bytes {got[:16]!r} which does "
@@ -812,7 +849,9 @@ def run(scn, full_log=False):
                 if res[0] == "exc":
                     probe("later_read_raised_" + type(res[1]).__name__)
                 if rk == "into":
-                    c = max(c, P)  # whatever was buffered went into the caller's buffer
+                    # buffered bytes may or may not have been moved into the caller's buffer
+                    # before the call failed: the cursor is only a lower bound from here on
+                    dirty = True
                 continue
             if not pac:
                 bad("close.failed_while_open",
@@ -878,12 +917,23 @@ def run(scn, full_log=False):
             probe("closed_after_owner_cancel")
             if st["pending_kinds"]:
                 probe("closed_after_owner_cancel_with_other_pending")
-        if st["closed_by_cause"]:
+        if exp_unsat:
+            mine = [r for r in recs if (r["pac"] or (r.get("cancelled") and not r["closed_at_issue"]))
+                    and r["op"].get("max") is not None]
+            if not mine:
+                bad("close.self_close_without_cause",
+                    "the stream closed itself with no socket error, EOF, close() call or pending "
+                    "read with max_bytes")
+            probe("self_close_max_bytes_" + ("inline" if st.get("self_inline") else "handler"))
+            if len(st["pending_kinds"]) >= 2:
+                probe("self_close_max_bytes_with_other_pending")
+        if st["closed_by_cause"] and not exp_unsat:
             probe("closed_by_cause_" + cause)
-        if cause not in ("none",) and not st["closed_by_cause"]:
+        if cause not in ("none",) and (not st["closed_by_cause"] or exp_unsat):
             probe("cause_did_not_close_stream")
         stats["probes"].update(probes)
-        nontrivial = bool(st["closed_by_cause"] and cause != "none" and st["pending_kinds"])
+        nontrivial = bool(st["closed_by_cause"] and (cause != "none" or exp_unsat)
+                          and st["pending_kinds"])
         info = {"recv": st["n_recv"], "send": st["n_send"]}
         over.append(1)
         return {"violations": viol, "nontrivial": nontrivial, "stats": stats, "info": info,
